@@ -31,6 +31,7 @@ RULE = (
     "of more than 100 tokens; CPU-time alarm = non-termination. Non-trivial: the parser requested at least two tokens "
     "beyond the context prefix before deciding (counted by a lexer subclass injected through lexer=); distinct by "
     "construction for (a), by hash of the text for (b)/(c)."
+    ' Long literals: 8 openers x 15 pieces (escape forms, bad escapes, plain characters) x repetition counts up to 300 (quick) / 5 000 (thorough) x closed/open x 5 continuations x 2 contexts, each under the 10 s CPU alarm. '
 )
 ASSUMPTIONS = [
     "a CPU-time alarm of 10 s (short inputs) / 60 s (program mutants) is taken as non-termination",
@@ -302,6 +303,34 @@ def literal_shard(arg):
     return st
 
 
+LIT_OPENERS = ["'", '"', "L'", 'L"', "u8'", 'u8"', "U'", "<"]
+LIT_PIECES = ["\\n", "\\0", "\\12", "\\x41", "\\q", "\\\\", "\\'", '\\"', "a", "\\u00e9", "\\xZ", "\\9", "?\\?", "%d", "\\\n"]
+
+
+def long_literal_shard(arg):
+    """Character constants, string literals and header-name look-alikes made of
+    n copies of one piece (every escape form, bad escapes, plain characters),
+    closed or left open, followed by each kind of continuation: whatever the
+    lexer's error patterns make of them, parse() returns or raises a located
+    ParseError within the CPU budget (10 s for at most a few kilobytes)."""
+    opener, ns = arg
+    closer = {"<": ">"}.get(opener, opener[-1])
+    st = Stats()
+    for piece in LIT_PIECES:
+        for n in ns:
+            for closed in (True, False):
+                for tail in (";", "\n;", "", " x;", closer):
+                    lit = opener + piece * n + (closer if closed else "")
+                    for tmpl in ("char c = %s%s", "void f(void) { g(%s, 1)%s }"):
+                        src = tmpl % (lit, tail)
+                        if _check_text(src, 6, 3, st, "noise", (src, "f.c")):
+                            st.nontrivial += 1
+                        st.classes["long_literal.%s" % ("closed" if closed else "open")] += 1
+                    if len(st.failures) > 4:
+                        return st
+    return st
+
+
 def directive_shard(arg):
     """'#' lines of every shape: directive heads x line-number fields x file-name
     fields built from ordinary and hostile pieces (characters that Python's str
@@ -430,6 +459,7 @@ def run(ctx):
     ulen = len(_reflex.pp_tokens(_c02.POSITION_UNIT))
     ctx.map(sliding_shard, [(j, ctx.pick(120, 800)) for j in range(0, ulen, ctx.pick(2, 1))], chunksize=4)
     nlit = ctx.pick(4, 5)
+    ctx.map(long_literal_shard, [(o, ctx.pick((3, 9, 17, 26, 40, 64, 300), (3, 9, 17, 26, 33, 40, 64, 128, 300, 5000))) for o in LIT_OPENERS])
     ctx.map(literal_shard, [(name, nlit, f) for name, alph in (("int", c10.ALPH_INT), ("flt", c10.ALPH_FLT), ("chr", c10.ALPH_CHR)) for f in alph])
     bounds["literal_strings"] = "length<=%d over the three literal alphabets of C10 x 2 positions" % nlit
     cj = os.path.join(ctx.here, "corpus", "fuzz_c06.json")
